@@ -203,7 +203,12 @@ mod verif_cex {
                 {
                     return false;
                 }
-                // Independent re-check against the file bytes.
+                // Independent re-check against the file bytes. An EMPTY key occupies no byte: its range
+                // is the single column where it was found (start == end >= 1, never column 0, never
+                // end < start); a non-empty key's columns slice exactly the key out of the file line.
+                if key.is_empty() {
+                    return *col_end == *col_start && *col_start >= 1;
+                }
                 let file_line = text.split('\n').nth(*line - 1).unwrap_or("");
                 file_line.as_bytes().get(col_start - 1..*col_end) == Some(key.as_bytes())
             }
@@ -425,6 +430,21 @@ mod verif_cex {
         Trim,
         Group,
         Plain,
+        /// `keep-sorted-pattern="(?P<value>z*)"`: the match can be EMPTY
+        EmptyGroup,
+    }
+
+    /// A pattern whose match can be empty: every line matches at offset 0 and the key is the leading
+    /// run of `z` bytes of the line, possibly "" (C06: "the `value` group ... of each matching
+    /// line" - an empty key IS a key). A BLANK line never has a key, whatever the pattern matches.
+    const EMPTY_GROUP_PATTERN: &str = "(?P<value>z*)";
+
+    /// ground truth for EMPTY_GROUP_PATTERN by a plain byte scan (no regex)
+    fn leading_z_span(line: &str) -> Option<(usize, usize)> {
+        if line.chars().all(char::is_whitespace) {
+            return None;
+        }
+        Some((0, line.bytes().take_while(|b| *b == b'z').count()))
     }
 
     fn key_span(sym: &Sym, mode: Mode) -> Option<(usize, usize)> {
@@ -432,6 +452,7 @@ mod verif_cex {
             Mode::Trim => trimmed_span(sym.text),
             Mode::Group => sym.group,
             Mode::Plain => sym.plain,
+            Mode::EmptyGroup => leading_z_span(sym.text),
         }
     }
 
@@ -481,6 +502,7 @@ mod verif_cex {
                 Mode::Trim => {}
                 Mode::Group => s.push_str(&format!(" keep-sorted-pattern=\"{GROUP_PATTERN}\"")),
                 Mode::Plain => s.push_str(&format!(" keep-sorted-pattern=\"{PLAIN_PATTERN}\"")),
+                Mode::EmptyGroup => s.push_str(&format!(" keep-sorted-pattern=\"{EMPTY_GROUP_PATTERN}\"")),
             }
             if let Some(f) = self.format {
                 s.push_str(&format!(" keep-sorted-format=\"{f}\""));
@@ -501,7 +523,16 @@ mod verif_cex {
         let keys: Vec<(usize, &str)> = syms
             .iter()
             .enumerate()
-            .filter_map(|(i, s)| key_span(s, config.mode).map(|(a, b)| (built.line_offsets[i] + a, &s.text[a..b])))
+            .filter_map(|(i, s)| {
+                // Where the content begins on the tag's own line the first content line is the separating
+                // blank + the generated line; a pattern anchored at the line start (EmptyGroup) then finds
+                // the empty key in front of that blank.
+                let led_by_blank = i == 0 && built.line_offsets[0] > 0 && built.text.as_bytes()[built.line_offsets[0] - 1] == b' ';
+                if config.mode == Mode::EmptyGroup && led_by_blank {
+                    return leading_z_span(s.text).map(|_| (built.line_offsets[0] - 1, ""));
+                }
+                key_span(s, config.mode).map(|(a, b)| (built.line_offsets[i] + a, &s.text[a..b]))
+            })
             .collect();
         // C13: "non-numeric keys under numeric sort" are a hard error wherever the key stands (the first
         // or only key included); the scan stops at the first key that is either not a number or out of order.
@@ -527,7 +558,9 @@ mod verif_cex {
             };
             if out_of_order {
                 let (line, col) = line_col(&built.text, w[1].0);
-                return Expect::At { line, col_start: col, col_end: col + cur.len() - 1, key: cur.to_string() };
+                // C10: the columns delimit the key; an empty key is the single column where it was found
+                let col_end = if cur.is_empty() { col } else { col + cur.len() - 1 };
+                return Expect::At { line, col_start: col, col_end, key: cur.to_string() };
             }
         }
         Expect::Clean
@@ -548,7 +581,7 @@ mod verif_cex {
             "file_text": built.text,
             "layout": layout_name(layout),
             "keep-sorted": config.direction,
-            "keep-sorted-pattern": match config.mode { Mode::Trim => Value::Null, Mode::Group => json!(GROUP_PATTERN), Mode::Plain => json!(PLAIN_PATTERN) },
+            "keep-sorted-pattern": match config.mode { Mode::Trim => Value::Null, Mode::Group => json!(GROUP_PATTERN), Mode::Plain => json!(PLAIN_PATTERN), Mode::EmptyGroup => json!(EMPTY_GROUP_PATTERN) },
             "keep-sorted-format": config.format,
             "content_lines": lines,
         });
@@ -715,6 +748,29 @@ mod verif_cex {
                 }
             }
         }
+        // (c') a pattern whose match can be EMPTY, `(?P<value>z*)`: the key of a non-blank line is its
+        //      leading run of `z` (possibly ""; an empty key is a key and is reported at the single
+        //      column where it was found), a blank line has no key. Every sequence of <= 3 lines over 9
+        //      lines x asc/desc x {lexicographic, numeric (an empty / non-numeric key is an error)};
+        //      layout 0 through the fast path, and sequences of <= 2 lines in the layouts where the
+        //      content begins on the tag's own line (2, 4) and where the end tag shares the last line (3).
+        let empty_alphabet = [t("zb"), t("a"), t("zza"), t(""), t("   "), t("z"), t("b"), t("zz"), t(" zb")];
+        let empty_configs = [
+            Config { direction: Some("asc"), mode: Mode::EmptyGroup, format: None },
+            Config { direction: Some("desc"), mode: Mode::EmptyGroup, format: None },
+            Config { direction: Some("asc"), mode: Mode::EmptyGroup, format: Some("numeric") },
+            Config { direction: Some("desc"), mode: Mode::EmptyGroup, format: Some("numeric") },
+        ];
+        for seq in sequences(&empty_alphabet, 3) {
+            fast.run("V1", &empty_configs, &seq, &mut cases);
+        }
+        for layout in [2usize, 3, 4] {
+            for seq in sequences(&empty_alphabet, 2) {
+                for config in &empty_configs[..2] {
+                    run_case("V1", &parsers, layout, config, &seq, &mut cases);
+                }
+            }
+        }
         // (d) longer random blocks (seeded from VERIF_SEED).
         let mut rng = Lcg::from_env();
         for _ in 0..1500 {
@@ -727,7 +783,7 @@ mod verif_cex {
         cex_none(
             "V1",
             cases,
-            "no pattern: all sequences of <=4 lines over {a,b,ab,'  a','b  ','','   ',2,10,9.5,-3,2.0} and <=5 lines over {a,b,'\\ta ','',10,B} x {asc,desc,'',ASC,Desc,bare} x {lexicographic,numeric}; patterns (regex compile is ~1 ms in debug): all sequences of <=2 lines over 12 annotated `k=..` lines x {group,plain} x {asc,desc,ASC} x {lexicographic,numeric}, all 3-line sequences over 9 of them x 6 configurations; 6 comment layouts x (no pattern: sequences of <=3 lines over 6 lines; patterns: <=2 lines); 1500 random blocks of 6..=15 lines",
+            "no pattern: all sequences of <=4 lines over {a,b,ab,'  a','b  ','','   ',2,10,9.5,-3,2.0} and <=5 lines over {a,b,'\\ta ','',10,B} x {asc,desc,'',ASC,Desc,bare} x {lexicographic,numeric}; patterns (regex compile is ~1 ms in debug): all sequences of <=2 lines over 12 annotated `k=..` lines x {group,plain} x {asc,desc,ASC} x {lexicographic,numeric}, all 3-line sequences over 9 of them x 6 configurations; 6 comment layouts x (no pattern: sequences of <=3 lines over 6 lines; patterns: <=2 lines); empty-match pattern `(?P<value>z*)` (key = leading run of z, possibly empty; blank lines have no key): all sequences of <=3 lines over {zb,a,zza,'','   ',z,b,zz,' zb'} x {asc,desc} x {lexicographic,numeric}, and <=2 lines in the layouts where content begins on the tag's line / the end tag shares the last line; 1500 random blocks of 6..=15 lines",
         );
     }
 
@@ -899,7 +955,7 @@ mod verif_cex {
             if expected != observed {
                 cex_fail(
                     "V1r",
-                    "regex_value: None when the line has no match, else the `value` group if it took part in the leftmost match, else the whole match, with 1-based inclusive byte columns",
+                    "regex_value: None for a blank line or when the line has no match, else the `value` group if it took part in the leftmost match, else the whole match, with 1-based inclusive byte columns (an empty key: the single column where it was found)",
                     json!({"line": line, "pattern": re_text}),
                     json!(expected),
                     json!(observed),
@@ -931,6 +987,28 @@ mod verif_cex {
                 check(&line, &group_re, GROUP_PATTERN, None, &mut cases);
             }
         }
-        cex_none("V1r", cases, "lines = 6 prefixes x `k=` x 5 keys x 4 suffixes (key position known by construction) against 4 patterns (value group, no group, optional value group taking part / not taking part, differently named group) + non-matching lines");
+        // patterns whose match can be EMPTY: a blank line never has a key; on a non-blank line the
+        // (possibly empty) match at the leftmost position is the key, and an empty key is reported
+        // as the single column where it was found: start == end == match_start + 1.
+        let run_of = |line: &str, pred: fn(u8) -> bool| line.bytes().take_while(|b| pred(*b)).count();
+        let empty_patterns: [(&str, fn(u8) -> bool); 4] = [
+            ("(?P<value>z*)", |b| b == b'z'),
+            ("z*", |b| b == b'z'),
+            ("(?P<value>[a-z]*)", |b| b.is_ascii_lowercase()),
+            ("x*", |b| b == b'x'),
+        ];
+        for (pattern, pred) in empty_patterns {
+            let re = regex::Regex::new(pattern).unwrap();
+            for line in ["zb", "a", "zza", "", "   ", "\t", " \u{a0} ", "z", "b", "zz", " zb", "abc", "1", "ab1", "xxa", "\u{e9}z", "z "] {
+                let expected = if line.chars().all(char::is_whitespace) {
+                    None
+                } else {
+                    let n = run_of(line, pred);
+                    Some((line[..n].to_string(), 1usize, if n == 0 { 1 } else { n }))
+                };
+                check(line, &re, pattern, expected, &mut cases);
+            }
+        }
+        cex_none("V1r", cases, "lines = 6 prefixes x `k=` x 5 keys x 4 suffixes (key position known by construction) against 4 patterns (value group, no group, optional value group taking part / not taking part, differently named group) + non-matching lines; 4 patterns whose match can be empty ((?P<value>z*), z*, (?P<value>[a-z]*), x*) x 17 lines incl. blank ones (no key) and lines where the match is empty (key \"\" at the single column start == end == 1)");
     }
 }
